@@ -12,5 +12,5 @@ CONSTANTS
   Thirds = {"same", "perm", "addr"}
 VIEW MCView
 INVARIANTS MergeCommutes MergeAssoc MergeIdem Converge ClosureModKnown
-PROPERTIES AuthorisedModKnown
+PROPERTIES Authorised
 CHECK_DEADLOCK FALSE
